@@ -321,6 +321,8 @@ def finish(ctx, meta, t0):
     for f in known.get('findings', []):
         if f.get('property') == prop:
             kf['%s %s' % (f['rule'], f['construct'])] = f
+        # the same finding seen through a dependency rule set of another property
+        kf['dep:%s %s %s' % (f.get('property'), f['rule'], f['construct'])] = f
     viol = [o for o in ctx.obs if o.status == 'violation']
     errs = [o for o in ctx.obs if o.status == 'error']
     oks = [o for o in ctx.obs if o.status == 'ok']
